@@ -1295,6 +1295,22 @@ func (x *sealedScn) runFlaky() {
 			x.roundTrip(sd, clear)
 		}
 	}
+	// ---- Store while the storage answers its first write with an error that calls itself temporary: whatever the
+	// library does about it (give up, try again), what it hands to storage is sealed (inspected like everything else)
+	{
+		X := mk()
+		sd.rec.Arm(1, recstore.FaultTemporary)
+		err := x.libStore(sd, X)
+		fired := sd.rec.Fired()
+		sd.rec.Arm(0, "")
+		switch {
+		case !fired:
+		case err != nil:
+			r.Count("flaky:store_gave_up_on_a_temporary_storage_error:"+sealedTypeOf(X), 1)
+		default:
+			r.Count("flaky:store_succeeded_after_a_temporary_storage_error:"+sealedTypeOf(X), 1)
+		}
+	}
 	// ---- Store with a failing Encrypt
 	for k := 1; k <= 4; k++ {
 		X := mk()
